@@ -362,8 +362,9 @@ static std::vector<Scenario> scenariosC03(bool thorough, const vp::Args& A) {
   Tel foreignMS = mk("1008b509020d00", "015a"), foreignBC = mk("10fe070400");
   for (int enh = 0; enh < 2; enh++) {
     for (size_t ci = 0; ci < cfgs.size(); ci++) {
-      for (int shape = 0; shape < 6; shape++) {
+      for (int shape = 0; shape < 7; shape++) {
         if (shape == 4 && !thorough) continue;
+        if (shape == 6 && !cfgs[ci].genSyn) continue;
         Scenario s;
         s.enhanced = enh;
         s.own = cfgs[ci].own; s.readOnly = cfgs[ci].readOnly; s.genSyn = cfgs[ci].genSyn;
@@ -380,6 +381,10 @@ static std::vector<Scenario> scenariosC03(bool thorough, const vp::Args& A) {
           case 2: addReq(m2, Bytes{}, false); addReq(m3, Bytes{}, false); s.foreign.push_back(telScript(foreignBC)); break;
           case 3: addReq(m1, Bytes{0x01, 0x5a}, true); addReq(m2, Bytes{}, true); s.r = 2; break;
           case 5: addReq(m3, Bytes{}, false); s.foreign.push_back(telScript(foreignMS)); break;  // failed own exchange directly followed by foreign traffic
+          case 6:  // nobody else generates SYN: several receive timeouts in a row, then traffic (AUTO-SYN timing, collided AUTO-SYN)
+            s.foreign.push_back(Script{pause(2500), pause(0), pause(0), pause(0), pause(0), pause(0)});
+            s.foreign.push_back(telScript(foreignBC));
+            break;
           case 4: addReq(m1, Bytes{0x01, 0x5a}, true); addReq(m2, Bytes{}, true); addReq(m3, Bytes{}, true); s.foreign.push_back(telScript(foreignMS)); s.r = 3; break;
         }
         s.tailSyns = 4;
